@@ -220,6 +220,7 @@ def norm(fn, u, opts):
         r = fn(u, **opts)
         if CTX[0] is not None:
             CTX[0].out((u, sorted(opts.items()), r))
+            CTX[0].remember("ural.normalize_url:normalize_url", [u], dict(opts), r, cap=4000)
         return r
     except Exception as e:
         return ("EXC", type(e).__name__, str(e)[:80])
@@ -367,6 +368,8 @@ def run(ctx):
                     ctx.count("stacked-markers")
             for u in REDIRECTS:
                 redirect_law(u)
+            for u in ("http://example.com/x?si=abc&t=42&ab_channel=z&_rdr=1&cbrd=1", "http://example.org/?t=42", "https://www.youtube.com/results?search_query=cats&t=42&si=abc", "https://www.facebook.com/x/y?_rdr=1&si=abc"):
+                norm(fn, u, {})  # per-domain items on and off their domain: remembered for the history-independence pass
             for u in PLATFORM_BASES:
                 pv = platform_variants(u, rng)
                 for name, uv in pv:
